@@ -82,7 +82,7 @@ def run(ctx) -> None:
   ctx.rule('R1', 'ParameterConfig.factory validates name, bounds and feasible values on every path to the constructor', 6)
   ctx.rule('R2', 'SearchSpace.add: duplicate check before store', 1)
   ctx.rule('R3', 'children under continuous parameters are rejected', 2)
-  ctx.rule('R4', 'assert_contains order and exception conversion', 4)
+  ctx.rule('R4', 'assert_contains decides membership correctly (finite model); contains() converts exactly InvalidParameterError', 2)
   ctx.rule('R5', 'feasibility dispatch total with matching accessors; exact handler; exact integrality test', 4)
   ctx.rule('R6', 'Study.add_trial validates against the freshly fetched search space before the service call', 1)
   ctx.rule('R7', 'sequential walk validates every chosen value', 2)
@@ -467,31 +467,56 @@ def r3_children(ctx, pc) -> None:
             'tests finiteness, no longer rejects such parameters', construct='double-inf', func=nf.qualname)
 
 
+def _assert_contains_model(fi: FuncInfo):
+  """assert_contains interpreted on a finite model: flat / conditional space, two configured parameters, parameter dicts with
+  missing / extra / infeasible entries.  Returns (first wrong row or None, rows)."""
+  import types as _types
+  from vzstatic import pathcond
+  par = [p_ for p_ in fi.params if p_ != 'self'][0]
+  cfgs = {'a': _types.SimpleNamespace(name='a', allowed={1, 2}), 'b': _types.SimpleNamespace(name='b', allowed={'x'})}
+
+  def hook(c, env_):
+    if isinstance(c.func, ast.Attribute) and c.func.attr == 'contains' and len(c.args) == 1:
+      obj = pathcond.neval(c.func.value, env_)
+      return pathcond.neval(c.args[0], env_) in obj.allowed
+    if isinstance(c.func, ast.Attribute) and c.func.attr in ('values', 'keys', 'items') and not c.args:
+      d_ = pathcond.neval(c.func.value, env_)
+      return list(getattr(d_, c.func.attr)())
+    if isinstance(c.func, ast.Attribute) and c.func.attr == 'get' and c.args:
+      d_ = pathcond.neval(c.func.value, env_)
+      return d_.get(pathcond.neval(c.args[0], env_), pathcond.neval(c.args[1], env_) if len(c.args) > 1 else None)
+    return NotImplemented
+  rows = 0
+  cases = [{'a': 1, 'b': 'x'}, {'a': 2, 'b': 'x'}, {'a': 3, 'b': 'x'}, {'a': 1, 'b': 'y'}, {'a': 1}, {'b': 'x'}, {},
+           {'a': 1, 'b': 'x', 'c': 0}, {'a': 1, 'c': 0}, {'c': 0, 'd': 1}]
+  for cond in (False, True):
+    for params in cases:
+      env = {'self.is_conditional': cond, par: dict(params), 'self._parameter_configs': dict(cfgs), 'self.parameters': list(cfgs.values()),
+             '__callhook__': hook}
+      rows += 1
+      try:
+        got = ('returns', pathcond.run_concrete(fi.node, env, tolerant=True))
+      except pathcond.Raised as r_:
+        got = ('raises', str(r_).split('(')[0])
+      member = set(params) == set(cfgs) and all(params[k] in cfgs[k].allowed for k in cfgs)
+      want = ('raises', 'NotImplementedError') if cond else (('returns', True) if member else ('raises', 'InvalidParameterError'))
+      ok = got == want or (want[0] == 'returns' and got[0] == 'returns' and got[1] in (True, None))
+      if not ok:
+        return (f'is_conditional={cond}, parameters={params}: {got[0]} {got[1]}, expected {want[0]} {want[1]}'), rows
+  return None, rows
+
+
 def r4_contains(ctx, ss) -> None:
   fi = ss.methods['assert_contains']
-  g = cfgmod.CFG(fi.node)
-  tests = [n for n in g.nodes if n.kind == 'test']
-  txt = [unparse(n.ast, 0) for n in tests]
-  def idx(frag):
-    for i, t in enumerate(txt):
-      if frag in t:
-        return i
-    return None
-  i_c, i_l, i_n, i_f = idx('is_conditional'), idx('len(parameters) != len('), idx('not in parameters'), idx('.contains(')
-  order_ok = None not in (i_c, i_l, i_n, i_f) and i_c < i_l < i_n <= i_f and \
-      tests[i_c].id in g.dominators()[tests[i_l].id] and tests[i_l].id in g.dominators()[tests[i_n].id]
-  cond_raises = i_c is not None and any(isinstance(m.ast, ast.Raise) and 'NotImplementedError' in unparse(m.ast, 0)
-                                        for m, lab in tests[i_c].succs if lab == 'T')
-  ctx.check(order_ok and cond_raises, 'R4', 'assert_contains: conditional refusal, size, presence, per-parameter contains', fi.node,
-            'tests in the documented order', 'assert_contains does not refuse conditional spaces first / skips a membership test',
-            construct='order', func=fi.qualname)
-  for frag, what in (('len(parameters) != len(', 'size mismatch'), ('not in parameters', 'missing parameter'), ('.contains(', 'infeasible value')):
-    ok = False
-    for n in ast.walk(fi.node):
-      if isinstance(n, ast.If) and frag in unparse(n.test, 0):
-        ok = any(isinstance(x, ast.Raise) and 'InvalidParameterError' in unparse(x, 0) for st in n.body for x in ast.walk(st))
-    ctx.check(ok, 'R4', f'assert_contains raises InvalidParameterError on {what}', fi.node, 'raises InvalidParameterError',
-              f'{what} does not raise InvalidParameterError', construct=what, func=fi.qualname)
+  from vzstatic import pathcond as _pc
+  try:
+    wrong, rows = _assert_contains_model(fi)
+  except _pc.NoValue as e:
+    raise AnalysisError(f'SearchSpace.assert_contains: cannot be evaluated on the finite model ({e})')
+  ctx.count('assert_contains_model_rows', rows)
+  ctx.check(wrong is None, 'R4', 'assert_contains on the finite model', fi.node,
+            f'conditional spaces refused, members accepted, everything else InvalidParameterError ({rows} rows)',
+            f'{wrong}: membership in the search space is answered wrongly', construct='assert-contains-model', func=fi.qualname)
   c = ss.methods['contains']
   hs = [h for h in ast.walk(c.node) if isinstance(h, ast.ExceptHandler)]
   gc = cfgmod.CFG(c.node)
